@@ -617,7 +617,9 @@ func propC04(c *Ctx) {
 			h := szHolder{A: sz, B: []size.Size{sz, 0, sz}, C: map[string]size.Size{"k": sz, "": 1}, D: &sz, E: [2]size.Size{sz, sz}, F: szInner{G: sz},
 				H: map[string][]size.Size{"x": {sz}}, I: []map[string]size.Size{{"y": sz}}, J: sz}
 			doc, err := json.Marshal(h)
-			var hb szHolder
+			// pre-filled with a value that is not sz: a decode that skips an assignment (e.g. for 0 B) is visible
+			other, otherD := sz^0x55, sz^0x55
+			hb := szHolder{A: other, D: &otherD, E: [2]size.Size{other, other}, F: szInner{G: other}}
 			var e2 error
 			if err == nil {
 				e2 = json.Unmarshal(doc, &hb)
@@ -636,6 +638,7 @@ func propC04(c *Ctx) {
 				S size.Size
 				L []size.Size
 			}
+			mb.S = sz ^ 0x55
 			if err != nil || json.Unmarshal(ind, &mb) != nil || mb.S != sz || len(mb.L) != 1 || mb.L[0] != sz {
 				c.Fail("C04.nested.indent", fmt.Sprintf("size.marshal %d %d json", s, cfg), "%s %v", ind, err)
 			}
